@@ -96,7 +96,10 @@ def case(ctx, idx, res):
             handles.setdefault('ps', []).append(f['ps'])
         if os.path.exists(outpath):
             os.unlink(outpath)
-        return d.call(**f)
+        rp = d.call(**f)
+        if 'src_error' in rp:       # the driver's own DOM parse refused the document: a failing source, like a parse error
+            return {'status': b'-2', 'out': b'', 'err': rp['src_error'], 'phase': b'parse'}
+        return rp
 
     try:
         setparams()
